@@ -2,7 +2,7 @@
 
 normalize_url (contracts/normalize_url_main.py), strip_lang_subdomains_from_hostname (contracts/fingerprint_url.py) and split_suffix are uninterpreted
 total functions here.  Proved for all inputs / options:
-  - the normalization is run on the LOWER-CASED input with the gl / hl item filter; what normalize_url cannot parse is returned as given (original case)
+  - the normalization is run on the LOWER-CASED input (escaped ASCII letters decoded and lower-cased too: lowercase_url) with the gl / hl item filter; what normalize_url cannot parse is returned as given (original case)
   - the record has an empty scheme and is rebuilt with port None ("never carries a scheme ... or port": the port slot is literally dropped)
   - path and fragment are lower-cased again after unquoting; the query is re-sorted exactly when lower-casing changed it
   - host: language labels first, then (strip_suffix) the part before the public suffix unless the host is a bare suffix
@@ -10,7 +10,9 @@ total functions here.  Proved for all inputs / options:
 """
 from contracts.canonicalize_url import lib
 
-N = "uf('normalize_url', 'Obj', old(url).lower(), False, lang_query_item_filter, platform_aware)"
+# lowercase_url (a contract-less, loop-free helper of the module: inlined): escaped ASCII letters are decoded between two lower-casings
+LU = "uf('unquote', 'Str', old(url).lower(), EVERYTHING_BUT_LETTERS).lower()"
+N = "uf('normalize_url', 'Obj', %s, False, lang_query_item_filter, platform_aware)" % LU
 P1, P2, P3, P4 = ("unpack(%s, %d, 'Str')" % (N, i) for i in (1, 2, 3, 4))
 LQ = "%s.lower()" % P3
 QUERY = ("ite(%s != %s, uf('safe_serialize_qsl', 'Str', uf('sorted_by', 'Obj', uf('safe_qsl_iter', 'Obj', %s), qsl_sort_key)), %s)" % (P3, LQ, LQ, P3))
@@ -26,16 +28,16 @@ def host_steps(hl):
 HOST = "ite(truthy(%s), opt(%s), %s)" % (H0, host_steps(HL), H0)
 RECORD = ("uf('SplitResult', 'Obj', '', uf('unsplit_netloc', 'Str', %s.username, %s.password, %s, none('Int')), %s.lower(), %s, %s.lower())"
           % (N, N, HOST, P2, QUERY, P4))
+U = "uf('urlunsplit', 'Str', %s)" % RECORD
 ISREC = "isinstance_(%s, 'SplitResult')" % N
 NH = "uf('normalize_hostname', 'Str', old(hostname))"
 
-LU = "old(url).lower()"
 GU = ("uf('urlsplit', 'Obj', uf('ensure_protocol', 'Str', uf('re_sub', 'Str', CONTROL_CHARS_RE, '',"
       " ite(infer_redirection, uf('infer_redirection', 'Str', %s), %s)).strip()))" % (LU, LU))
 
 MODULE = {
     "file": "ural/fingerprint_url.py", "auto": True,
-    "consts": {"lang_query_item_filter": ("Opaque", "Obj"), "qsl_sort_key": ("Opaque", "Obj"), "SplitResult": ("Opaque", "Obj")},
+    "consts": {"EVERYTHING_BUT_LETTERS": ("Opaque", "Obj"), "lang_query_item_filter": ("Opaque", "Obj"), "qsl_sort_key": ("Opaque", "Obj"), "SplitResult": ("Opaque", "Obj")},
     "obj_attrs": {"username": "Opt[Str]", "password": "Opt[Str]", "hostname": "Opt[Str]", "port": "Opt[Int]"},
     "library": {
         "Obj.sub": {"params": ["repl", "string"], "receiver": "pattern", "types": {"pattern": "Obj", "repl": "Str", "string": "Str"},
@@ -44,6 +46,7 @@ MODULE = {
                           "types": {"url": "Str", "unsplit": "Bool", "query_item_filter": "Obj", "platform_aware": "Bool"}, "returns": "Obj",
                           "result_meta": {"unpack": ["Str", "Str", "Str", "Str", "Str"]},
                           "ensures": ["result == uf('normalize_url', 'Obj', url, unsplit, query_item_filter, platform_aware)"]},
+        "unquote": lib("unquote", ["string", "unsafe"], ["Str", "Obj"], "Str"),
         "SplitResult": lib("SplitResult", ["scheme", "netloc", "path", "query", "fragment"], ["Str", "Str", "Str", "Str", "Str"], "Obj"),
         "urlunsplit": lib("urlunsplit", ["parts"], ["Obj"], "Str"),
         "safe_qsl_iter": lib("safe_qsl_iter", ["query"], ["Str"], "Obj"),
@@ -67,7 +70,8 @@ MODULE = {
             "ensures": [
                 "implies(not %s, result == obj(old(url)))" % ISREC,
                 "implies(%s and not unsplit, result == %s)" % (ISREC, RECORD),
-                "implies(%s and unsplit, result == obj(uf('urlunsplit', 'Str', %s)[2:]))" % (ISREC, RECORD),
+                # the '//' urlunsplit writes in front of a netloc is dropped (nothing is cut when the host emptied out and no '//' was written)
+                "implies(%s and unsplit, result == obj(ite(%s.startswith('//'), %s[2:], %s)))" % (ISREC, U, U, U),
             ],
         },
         "get_fingerprinted_hostname": {
